@@ -32,7 +32,7 @@ def effdim(cov):
     eigval = np.linalg.eigvals(cov)
     if (lowest_eigval := np.min(eigval)) <= -np.max(cov.shape) * np.finfo(
         cov.dtype
-    ).eps:
+    ).eps * max(1.0, np.max(np.abs(eigval))):
         raise np.linalg.LinAlgError(
             f"Matrix is not positive definite."
             f"Lowest eigenvalue {lowest_eigval} is "
@@ -40,6 +40,8 @@ def effdim(cov):
         )
     eigval[eigval < 0.0] = 0.0
     eigval /= sum(eigval)
+    # by convention 0 * log(0) = 0: empty directions do not contribute
+    eigval = eigval[eigval > 0.0]
     eigval *= np.log(eigval)
 
     return np.exp(-sum(eigval))
